@@ -272,7 +272,13 @@ class QvmCode(BaseCode):
         self._data[label].extend(data)
 
     def get_data_label_index(self, label):
-        return list(self._data.keys()).index(label)
+        # the group holding the first DATA statement at or after the
+        # label; if there is none, an index past the last group so
+        # that the next READ is out of data.
+        targets = self.compilation.data_label_targets
+        if label not in targets:
+            return len(self._data)
+        return list(self._data.keys()).index(targets[label])
 
     def add_user_type(self, type_block):
         self._user_types[type_block.name] = type_block
